@@ -5,6 +5,7 @@ package search_test
 import (
 	"fmt"
 	"math/rand"
+	"os"
 	"strings"
 	"testing"
 
@@ -111,7 +112,7 @@ func TestVerif_C01_Exhaustive(t *testing.T) {
 func c02Corpus(rng *rand.Rand, id int, long bool) *corpus.Corpus {
 	c := &corpus.Corpus{ID: id}
 	c.Repos = append(c.Repos, corpus.Repo{Name: "repo/r", ID: 31, Branches: []string{"HEAD", "dev"}, Shard: 0})
-	motifs := []string{"xa a a", "a a a", "a-a-a", "aaa", "abab", "abcabc", "aa\naa", "é中a", "Abc", "aBc", "abc", "ß", "😀", "\n", "\n\n", "\r\n", " ", "a", "b", "xyz.go", "(", "."}
+	motifs := []string{"xa a a", "a a a", "a-a-a", "aaa", "abab", "abcabc", "aa\naa", "é中a", "Abc", "aBc", "abc", "ß", "😀", "\n", "\n\n", "\r\n", " ", "a", "b", "xyz.go", "(", ".", "aéb", "a中b", "aßa", "a😀b"}
 	nd := 2 + rng.Intn(4)
 	for k := 0; k < nd; k++ {
 		var sb strings.Builder
@@ -134,6 +135,42 @@ func c02Corpus(rng *rand.Rand, id int, long bool) *corpus.Corpus {
 	return c
 }
 
+// c02Bordered: a text B M B M' B ... and patterns with a border (prefix = suffix), so that
+// occurrences overlap each other and overlap near misses (candidates of the trigram index that
+// fail verification) — whichever trigram pair the matcher picks.
+func c02Bordered(rng *rand.Rand) (string, []string, string) {
+	B := []string{"foo", "ab_", "aXa", "éab", "abc", "aaa", "a_b_"}[rng.Intn(7)]
+	sig := []rune("abc_x")
+	mid := make([]rune, 2+rng.Intn(4))
+	for i := range mid {
+		mid[i] = sig[rng.Intn(len(sig))]
+	}
+	M := string(mid)
+	mut := func() string {
+		m := append([]rune{}, mid...)
+		m[rng.Intn(len(m))] = sig[rng.Intn(len(sig))]
+		return string(m)
+	}
+	var sb strings.Builder
+	sb.WriteString(B)
+	for n := 3 + rng.Intn(8); n > 0; n-- {
+		switch rng.Intn(5) {
+		case 0, 1:
+			sb.WriteString(M)
+		case 2, 3:
+			sb.WriteString(mut())
+		default:
+			sb.WriteString("\n")
+		}
+		sb.WriteString(B)
+	}
+	// noise: every trigram of the pattern B M B except those inside the borders, many times: the
+	// borders become the selective trigrams, and B M' B a candidate that fails verification
+	br := []rune(B)
+	noise := strings.Repeat(string(br[1:])+M+string(br[:len(br)-1])+" ", 12+rng.Intn(12))
+	return sb.String(), []string{B + M + B, B + M + B + M + B, M + B + M, B + mut() + B, M + B}, noise
+}
+
 func TestVerif_C02_Dense(t *testing.T) {
 	tr := verifkit.Open(t)
 	defer tr.Close()
@@ -143,11 +180,31 @@ func TestVerif_C02_Dense(t *testing.T) {
 	for ci := 0; ci < ncorp; ci++ {
 		rng := verifkit.Rng(int64(5000 + ci))
 		c := c02Corpus(rng, ci+1, ci%4 == 0)
+		var bordered []string
+		if ci%2 == 1 {
+			var text string
+			var noise string
+			text, bordered, noise = c02Bordered(rng)
+			c.Docs = append(c.Docs, corpus.Doc{Repo: 0, Name: "bordered.txt", Content: text, Branches: []int{0}, Lang: "Text"})
+			if rng.Intn(3) > 0 {
+				c.Docs = append(c.Docs, corpus.Doc{Repo: 0, Name: "noise.txt", Content: noise, Branches: []int{0}, Lang: "Text"})
+			}
+			if rng.Intn(2) == 0 {
+				t2, _, _ := c02Bordered(rng)
+				c.Docs = append(c.Docs, corpus.Doc{Repo: 0, Name: "bordered2.txt", Content: t2 + " " + text, Branches: []int{0}, Lang: "Text"})
+			}
+		}
 		l := c01Load(t, c, ci%3 == 0)
 		tr.Emit(c.Event())
 		g := &corpus.QGen{Rng: rng, C: c}
 		pick := func() string { return c.PickPattern(rng, false) }
 		var qs []*corpus.Q
+		for _, p := range bordered {
+			qs = append(qs, &corpus.Q{T: "substr", Pat: p, CT: true, CS: rng.Intn(3) > 0})
+		}
+		if len(bordered) > 0 {
+			qs = append(qs, &corpus.Q{T: "regex", Pat: regexpQuote(bordered[0]), CT: true, CS: true})
+		}
 		for k := 0; k < 5; k++ {
 			qs = append(qs, &corpus.Q{T: "substr", Pat: pick(), CT: true, CS: rng.Intn(2) == 0})
 		}
@@ -163,6 +220,16 @@ func TestVerif_C02_Dense(t *testing.T) {
 		}
 		for k := 0; k < 2; k++ {
 			qs = append(qs, &corpus.Q{T: "regex", Pat: g.RegexFor(false), CT: true, CS: rng.Intn(2) == 0})
+		}
+		// ASCII-only patterns whose meaning depends on what one character is (rune, not byte) next to
+		// multi-byte text: engines / engine modes differ exactly here
+		runeRes := []string{"a.b", "a..b", `a\Wb`, "a[^b]b", `a\Sa`, "a.{1,2}b", "(?s)a.b", "a[^a]a", `\w\W\w`, "b.a"}
+		nrr := 2
+		if os.Getenv("VERIF_DENSE_RUNES") != "" {
+			nrr = len(runeRes)
+		}
+		for _, k := range rng.Perm(len(runeRes))[:nrr] {
+			qs = append(qs, &corpus.Q{T: "regex", Pat: runeRes[k], CT: true, CS: rng.Intn(2) == 0})
 		}
 		// file-name and mixed queries: ranges must be justified by some atom
 		qs = append(qs, &corpus.Q{T: "substr", Pat: c.PickPattern(rng, true), FN: true, CS: rng.Intn(2) == 0})
